@@ -90,6 +90,10 @@ type scenario struct {
 	Linktests int // Linktest.req the peer sends during the window
 	Pipe      int // data frames pipelined behind the select that establishes the session
 	PipeW     []bool
+	// PipeTwin: the first pipelined frame is a data SECONDARY (even function, no W-bit) that carries the
+	// very system bytes of the Select.req it follows: it is data for the handlers, never the answer to
+	// (nor swallowed by) the select transaction that is just being closed
+	PipeTwin bool
 	Cuts      []int
 	Gaps      []time.Duration
 	Session   uint16
@@ -214,6 +218,7 @@ func genScenario(t *core.Tape) scenario {
 	for i := 0; i < sc.Pipe; i++ {
 		sc.PipeW = append(sc.PipeW, t.Choose("scn", 2) == 1)
 	}
+	sc.PipeTwin = sc.Pipe > 0 && t.Choose("scn", 3) == 0
 	nc := t.Choose("scn", 6)
 	for i := 0; i < nc; i++ {
 		sc.Cuts = append(sc.Cuts, t.Choose("scn", 1<<16))
@@ -297,7 +302,7 @@ func (h *harness) describe() map[string]any {
 	}
 
 	return map[string]any{"situation": sitNames[sc.Sit], "active": sc.Active, "equip": sc.Equip, "t7short": sc.T7Short, "senders": ents,
-		"inbound": sc.Inbound, "burstIntoClosedWindow": sc.Burst, "queue": sc.Queue, "linktests": sc.Linktests, "pipelined": sc.Pipe, "cuts": len(sc.Cuts), "session": sc.Session}
+		"inbound": sc.Inbound, "burstIntoClosedWindow": sc.Burst, "queue": sc.Queue, "linktests": sc.Linktests, "pipelined": sc.Pipe, "pipeTwin": sc.PipeTwin, "cuts": len(sc.Cuts), "session": sc.Session}
 }
 
 func (h *harness) liveConn() *refhsms.Conn {
@@ -624,7 +629,9 @@ func (h *harness) sendEstablish() {
 		return
 	}
 	var stream []byte
+	twinSys, twin := uint32(0), false
 	if h.pendingSel != nil && h.pendingSelC == c {
+		twinSys, twin = h.pendingSel.H.Sys, sc.PipeTwin
 		stream = append(stream, refhsms.Frame(refhsms.Header{Session: h.pendingSel.H.Session, B3: 0, SType: refhsms.STSelectRsp, Sys: h.pendingSel.H.Sys}, nil)...)
 		h.pendingSel = nil
 		h.w.Probe("established_by_select_rsp")
@@ -640,6 +647,10 @@ func (h *harness) sendEstablish() {
 	var pipe []inbound
 	for i := 0; i < sc.Pipe; i++ {
 		hd := refhsms.DataHeader(sc.Session, byte(1+i), byte(1+2*i), sc.PipeW[i], 0x51000000+uint32(i))
+		if i == 0 && twin {
+			hd = refhsms.DataHeader(sc.Session, 1, 2, false, twinSys)
+			h.w.Probe("pipelined_secondary_with_the_select_transaction_system_bytes")
+		}
 		body := refhsms.ASCII(fmt.Sprintf("pipe%d", i))
 		pipe = append(pipe, inbound{H: hd, Body: body, SentAt: h.w.Now()})
 		stream = append(stream, refhsms.Frame(hd, body)...)
